@@ -183,6 +183,6 @@ SUBS = [Sub("collapse", judge, strategy=case_st, quick=8000, thorough=120000, sh
 
 MANIFEST = {
     "technique": "property-based testing: generated address lists (siblings, nesting, duplicates) through collapse(), output judged by interval-set equality and validity predicates",
-    "text": "exploration: merged integer intervals of output and input are equal (nothing gained, nothing lost), length/order/class/platform/notes predicates hold and inputs stay untouched on thousands (quick) / 120 000 (thorough) generated lists for both address classes and platforms; refusal cases raise TypeError",
+    "text": "exploration: merged integer intervals of output and input are equal (nothing gained, nothing lost), length/order/class/platform/notes predicates hold and inputs stay untouched on thousands (quick) / 120 000 (thorough) generated lists for both address classes and platforms; refusal cases raise TypeError; a third of the cases collapse, re-address some inputs through their setters and collapse again",
     "note": "trusted: interval algebra of lib/refsem.py; minimality is not asserted; /0 results are outside the generated domain",
 }
